@@ -249,3 +249,76 @@ func selectCaseBlock(sel *ssa.Select, i int) *ssa.BasicBlock {
 
 // inLoop: the instruction can execute more than once per activation.
 func inLoop(in ssa.Instruction) bool { return reachableFrom(in.Block())[in.Block()] }
+
+// sendSite: a point of fn at which value Val is offered on channel Chan: a send case of a select, a plain send, or
+// a call of a send helper (a module function that offers one of its parameters on another of its parameters).
+type sendSite struct {
+	In     ssa.Instruction
+	Val    ssa.Value
+	Chan   ssa.Value
+	Helper *ssa.Function // non-nil when the send happens inside a helper
+}
+
+var sendHelperCache = map[*ssa.Function][][2]int{}
+
+// sendHelper: pairs (i, j) such that g offers its parameter i on its parameter j.
+func (p *Prog) sendHelper(g *ssa.Function) [][2]int {
+	if r, ok := sendHelperCache[g]; ok {
+		return r
+	}
+	sendHelperCache[g] = nil
+	var out [][2]int
+	idx := func(v ssa.Value) int {
+		for i, prm := range g.Params {
+			if ssa.Value(prm) == v {
+				return i
+			}
+		}
+		return -1
+	}
+	eachInstr(g, func(in ssa.Instruction) {
+		switch x := in.(type) {
+		case *ssa.Select:
+			for _, st := range x.States {
+				if st.Dir == types.SendOnly {
+					if i, j := idx(st.Send), idx(st.Chan); i >= 0 && j >= 0 {
+						out = append(out, [2]int{i, j})
+					}
+				}
+			}
+		case *ssa.Send:
+			if i, j := idx(x.X), idx(x.Chan); i >= 0 && j >= 0 {
+				out = append(out, [2]int{i, j})
+			}
+		}
+	})
+	sendHelperCache[g] = out
+	return out
+}
+
+func (p *Prog) sendSites(fn *ssa.Function) []sendSite {
+	var out []sendSite
+	eachInstr(fn, func(in ssa.Instruction) {
+		switch x := in.(type) {
+		case *ssa.Select:
+			for _, st := range x.States {
+				if st.Dir == types.SendOnly {
+					out = append(out, sendSite{In: in, Val: st.Send, Chan: st.Chan})
+				}
+			}
+		case *ssa.Send:
+			out = append(out, sendSite{In: in, Val: x.X, Chan: x.Chan})
+		case *ssa.Call:
+			g := staticCallee(&x.Call)
+			if g == nil || g.Blocks == nil || !p.InModule(g) || g == fn {
+				return
+			}
+			for _, ij := range p.sendHelper(g) {
+				if ij[0] < len(x.Call.Args) && ij[1] < len(x.Call.Args) {
+					out = append(out, sendSite{In: in, Val: x.Call.Args[ij[0]], Chan: x.Call.Args[ij[1]], Helper: g})
+				}
+			}
+		}
+	})
+	return out
+}
